@@ -357,6 +357,34 @@ def rule_R5_closure_underscore(text, log):
     return text
 
 
+def rule_R33_lift_nested_fns(text, log, label):
+    """Remove `fn` items nested inside a function body (they are extracted as items of their own, by path
+    `fn outer/fn inner`, and placed at module level: a nested fn cannot capture, so this is scope-only)."""
+    toks = R.lex(text)
+    kw, bo, arrow, where = fn_signature_parts(text, toks)
+    out, last, n = [], 0, 0
+    j = bo + 1
+    end = R.match_close(toks, bo)
+    while j < end:
+        t = toks[j]
+        if t.kind == 'id' and t.text == 'fn' and toks[j - 1].kind == 'punct' and toks[j - 1].text in ('{', '}', ';'):
+            k2, b2, _a, _w = fn_signature_parts(text[t.start:], R.lex(text[t.start:]))
+            sub = R.lex(text[t.start:])
+            close = R.match_close(sub, b2)
+            out.append(text[last:t.start])
+            last = t.start + sub[close].end
+            n += 1
+            # skip tokens inside the removed item
+            while j < end and toks[j].start < last:
+                j += 1
+            continue
+        j += 1
+    out.append(text[last:])
+    if n:
+        log.append(('R33', '%s: %d nested fn item(s) lifted out of the body' % (label, n)))
+    return ''.join(out)
+
+
 def rule_R16_mut_self(text, log, label):
     """`fn f(mut self, ..) { B }` -> `fn f(self, ..) { let mut this = self; B[self := this] }`
     (Verus does not support `mut self`; this is an alpha-renaming of the by-value receiver)."""
@@ -974,6 +1002,8 @@ def build_unit(unit, repo, variant=None):
             text = rule_for_to_while(text, lr[0], lr[1], ilog, item_id)
         text = rule_R5_closure_underscore(text, ilog)
         text = rule_R17_visibility(text, ilog, item_id)
+        if kind == 'fn' and spec.get('lift_nested_fns'):
+            text = rule_R33_lift_nested_fns(text, ilog, item_id)
         if kind in ('fn', 'impl'):
             text = rule_R22_let_chains(text, ilog, item_id)
         if kind == 'fn':
